@@ -8,7 +8,7 @@ TRUSTED = ['Tier H model coq/Model/{Axis,Filter}.v tied to /repo by vm_compute c
            'modelled, not verified: binary64 rounding (model is exact; numbers compared within 1e-9, decisions away from borders by >= 5e-4)',
            'firmware behaviour = the reference printer']
 ASSUMPTIONS = ['absolute extrusion mode; matched equal-length retract/recover cycles of one style']
-KW = dict(style_in=('eonly','firmware'))
+KW = dict(style_in=('eonly', 'firmware'), wipe=False)
 
 
 def _kw():
